@@ -7,6 +7,83 @@ import mir
 import mprop
 from gating import check_gates, is_ok, is_true, is_false, ok_true, must, disc_of
 
+TRANSPARENT = r"(Cow::into_owned|ToString::to_string|Deref::deref|AsRef::as_ref|String::as_str|Borrow::borrow|Into::into|From::from|ToOwned::to_owned|Clone::clone|str::to_string|String::from)$"
+
+
+def key_term(p, leaf, depth=0):
+    """which accessor of the rsync URI a key / path component is derived from: ('uri', accessor) or ('?', why)."""
+    if not isinstance(leaf, mir.Opq) or depth > 8:
+        return ("?", repr(leaf))
+    for e in p.events:
+        if e.kind == "call" and isinstance(e.dest.get(()), mir.Opq) and e.dest.get(()).id == leaf.id:
+            m = re.search(r"uri::Rsync::(\w+)$", e.name)
+            if m:
+                return ("uri", m.group(1))
+            if re.search(TRANSPARENT, e.name) and e.args:
+                return key_term(p, e.args[0].get(()), depth + 1)
+            return ("?", e.name)
+    m = re.match(r"o(\d+)as\w+\.\d+$", leaf.origin or "")
+    if m:
+        return key_term(p, mir.Opq.registry.get(int(m.group(1))), depth + 1)
+    for k, v in p.memo.items():
+        if isinstance(k, tuple) and k and k[0] == "deref" and isinstance(v.get(()), mir.Opq) and v.get(()).id == leaf.id:
+            for part in k[1]:
+                if len(part) >= 3 and part[1] == "o":
+                    return key_term(p, mir.Opq.registry.get(part[2]), depth + 1)
+                if len(part) >= 3 and part[1] == "r":
+                    return key_term(p, p.mem.get(part[2]), depth + 1)
+    return ("?", leaf.origin or repr(leaf))
+
+
+def check_retain_keys(res, E):
+    """the (authority, module) key a URI is retained under is derived like the directory names its module is stored in."""
+    res.functions.append("routinator::collector::rsync::{ModuleSet::add_from_uri, ModuleSet::with_authority, WorkingDir::uri_path} (MIR)")
+    body = E.prog.find("src/collector/rsync.rs", "ModuleSet", "add_from_uri")
+    auth, mod = set(), set()
+    n = 0
+    for p in E.explore(body, max_visits=2, nomut=[r"."], inline=[r"with_authority"]):
+        if p.kind != "return":
+            continue
+        n += 1
+        for e in p.events:
+            if e.kind != "call" or len(e.args) < 2:
+                continue
+            if re.search(r"HashMap::(get_mut|get|entry|insert|contains_key)$", e.name):
+                auth.add(key_term(p, e.args[1].get(())))
+            elif re.search(r"HashSet::(contains|insert|get)$", e.name):
+                mod.add(key_term(p, e.args[1].get(())))
+    body = E.prog.find("src/collector/rsync.rs", "WorkingDir", "uri_path")
+    comps = None
+    for p in E.explore(body, max_visits=2, nomut=[r"."]):
+        if p.kind != "return":
+            continue
+        n += 1
+        c = [key_term(p, e.args[1].get(())) for e in p.events if e.kind == "call" and re.search(r"PathBuf::push$", e.name) and len(e.args) > 1]
+        if comps is not None and c != comps:
+            raise mir.Inconclusive("WorkingDir::uri_path builds different paths on different paths: %r vs %r" % (comps, c))
+        comps = c
+    res.samples.append({"retain_key_terms": {"authority": sorted(map(str, auth)), "module": sorted(map(str, mod)), "uri_path": list(map(str, comps or []))}})
+    res.distinct += n
+    if not auth or not mod or not comps or len(comps) < 2:
+        res.inconclusive.append("rsync retain keys: could not extract the key derivations (authority %r module %r path %r)" % (auth, mod, comps))
+        return
+    unknown = [t for t in list(auth) + list(mod) + comps[:2] if t[0] == "?"]
+    differs = auth != {comps[0]} or mod != {comps[1]}
+    if unknown or differs:
+        import nativetest
+        failed, passed, out = nativetest.run_native_test("native_c40", "c40_native_retain_key_matches_directory")
+        res.evaluations += 1
+        if failed:
+            fn = mprop.write_cex(res, "retain_key_derivation", mir.Path(mir.State(), {}, "static"), E,
+                                 "retain keys: authority %s module %s; stored under %s\n\nnative replay:\n%s" % (sorted(auth), sorted(mod), comps, out[-3000:]))
+            res.violation("mir:rsync-retain-key-not-directory-name",
+                          "a module is retained under (%s, %s) but stored under the directories (%s, %s): cleanup looks the directory names up in the retain set and removes the module"
+                          % (sorted(auth), sorted(mod), comps[0], comps[1]), fn)
+        elif unknown:
+            res.inconclusive.append("rsync retain keys: derivation not traced (%r); the native replay found no mismatch" % (unknown,))
+        else:
+            res.notes.append("rsync retain keys are derived differently from the directory names (%r/%r vs %r) but agree on the native sample URIs" % (auth, mod, comps[:2]))
+
 
 def run(res, tier):
     E = mprop.engine(res)
@@ -240,6 +317,7 @@ def run(res, tier):
                 res.violation("mir:rsync-cleanup-before-retain", "rsync cleanup deletes before registering the modules used in this run", fn)
     total += n6
     res.distinct += total
+    check_retain_keys(res, E)
     res.samples.append({"cleanup_paths_dirty": n_dirty, "cleanup_paths_cleaning": n_clean, "retaining_closure_paths": n3,
                         "retain_paths": n4, "dir_walk_removals": n5, "collector_removal_sites": n6})
     res.samples.append({"rule": "removal events are reachable only when the keep decision is forced false; dirty => no cleanup call; failed run => no cleanup"})
